@@ -397,3 +397,62 @@ def c04():
         ("all 496 shapes" if thorough else "the 31 shapes (k, 32-k) (each smaller m is a row prefix) and all k+m<=7",
          9 if thorough else 7, "all 496" if thorough else "every 4th (matrix) / 6th (basis) shape plus k=1, m=1, k+m=32"),
         ["TLC", "ASan/UBSan"], exhaustive=thorough)
+
+
+def c19():
+    chk = Check("C19")
+    thorough = chk.tier == "thorough"
+    be2 = [BE_ISAL_VAND, BE_ISAL_CAUCHY]
+    src = open(os.path.join(core.SPEC, "MC_IsaL.cfg")).read().replace("NMax = 7", "NMax = %d" % (11 if thorough else 9))
+    open(os.path.join(core.SPEC, "MC_IsaL_run.cfg"), "w").write(src)
+    m1 = _bg(tlc, "MC_IsaL", "MC_IsaL_run", workers=8, timeout=2400, tag="C19", heap="12g")
+    cmds = roundtrip_cmds(chk, be2, thorough, mode=7 | 8 | 16 | 32)
+    i = 0
+    for be in be2:
+        # every sub-set (beyond tolerance too) for small shapes: exact or refused
+        for (k, m) in rs_shapes(9 if thorough else 7):
+            i += 1
+            cmds.append(sweep_cmd(be, k, m, m, 2, len_classes(be, k)[4], _seed_of(chk, i), 0, k + m, 10**9, 1 | 8))
+        # all shapes up to k+m = 32, erasure sets sampled by size (singular survivor sets of the Vandermonde generator occur here)
+        for (k, m) in (rs_shapes(32) if thorough else rs_shapes(32)[::9]):
+            if k + m <= 8:
+                continue
+            i += 1
+            cmds.append(sweep_cmd(be, k, m, m, 1 + i % 2, len_classes(be, k)[(k + m) % 6], _seed_of(chk, i), max(m - 2, 0), m, 12 if thorough else 5, 1 | 2 | 8))
+        for (k, m) in rs_shapes(10 if thorough else 7):
+            i += 1
+            cmds.append(need_cmd(be, k, m, m, min(m, 4), 1500, _seed_of(chk, i)))
+            cmds.append("sweep_need_len %d %d %d %d %d %d %d %d" % (be, k, m, m, WORD[be], min(m + 1, 6), 30, _seed_of(chk, i)))
+    files, events, restarts = run_sweeps("asan", cmds, "C19-asan")
+    v = validate("TraceCodes", files)
+    _collect(chk, v, ["C19", "C01", "C02", "C03", "C06", "fault", "create failed", "encode failed"])
+    r = _join(m1)
+    chk.add_tlc(r, "MC_IsaL")
+    sing = [json.loads(m.group(1).encode().decode("unicode_escape")) for m in re.finditer(r'<<"SINGULAR", "(.*)">>', r.out)]
+    chk.parts["model_singular_survivor_sets"] = len(sing)
+    if not r.ok:
+        chk.violation({"event": "model", "cfg": "MC_IsaL", "violated": r.violated}, "IsaL model invariant violated: %s\n%s" % (r.violated, r.out[-1500:]))
+    # the reference plug-in itself is bound to IsaL.tla: encode bytes of both adapters against the spec's matrices (TraceWire)
+    from .checks_wire import enc_cmd
+    wc = []
+    for be in be2:
+        for (k, m) in [(4, 2), (5, 3), (1, 1), (10, 4), (3, 5), (12, 6)] + ([(16, 16), (20, 12), (2, 9)] if thorough else []):
+            for L in (1, 3 * k + 1, 7 * k):
+                wc.append(enc_cmd(be, k, m, m, 2, L, _seed_of(chk, k * 100 + L), 1))
+    fw, ew, rw = run_sweeps("asan", wc, "C19-wire")
+    vw = validate("TraceWire", fw, max_lines=200)
+    _collect(chk, vw, ["C07", "C08", "C10", "fault", "create failed"])
+    c = v.counts or [0] * 12
+    chk.cov["distinct_nontrivial"] = c[2] + c[5] + c[7]
+    chk.parts.update({"decode_events": c[1], "decode_refused": c[4], "reconstruct_events": c[5], "reconstruct_refused": c[6],
+                      "needed_events": c[7], "encode_events_byte_compared": (vw.counts or [0] * 3)[2]})
+    _samples(chk, files)
+    return _finish_codes(chk,
+        "TLC: transcription of the adapter's inverse-row synthesis (isa_l_common.c) is exact for every erasure set |E|<=m of every "
+        "shape k+m<=%d whose first k survivor rows are invertible, both generators; Cauchy never singular.  Implementation over a "
+        "clean-room reference libisal.so.2: round trip / reconstruct / fragments_needed for all tolerated sets k+m<=%d, every sub-set "
+        "for k+m<=%d, sampled sets for shapes up to k+m=32; a refusal within |E|<=m is accepted only if TLC finds the survivor matrix "
+        "singular in GF(2^8); the plug-in's matrices, multiply and encode are themselves compared byte for byte with IsaL.tla; "
+        "non-trivial = decode events with a missing fragment + reconstruct + fragments_needed events" %
+        (11 if thorough else 9, 12 if thorough else 8, 9 if thorough else 7),
+        ["TLC", "reference ISA-L plug-in (verif-owned, checked against IsaL.tla)", "ASan/UBSan"])
